@@ -383,6 +383,65 @@ theorem lookup_mem {d : List (κ × ρ)} {s : κ} {r : ρ} (h : d.lookup s = som
       cases h; subst this; exact List.mem_cons_self
     · exact List.mem_cons_of_mem _ (ih h)
 
+theorem dictInsert_present {d : List (κ × ρ)} {k : κ} {v : ρ} (h : k ∈ d.map (·.1)) :
+    (dictInsert d k v).length = d.length ∧ (dictInsert d k v).map (·.1) = d.map (·.1) := by
+  induction d with
+  | nil => simp at h
+  | cons x xs ih =>
+    obtain ⟨k', v'⟩ := x
+    simp only [dictInsert]
+    by_cases hk : (k' == k) = true
+    · simp only [hk, ↓reduceIte, List.length_cons, List.map_cons, and_self]
+    · have hk' : (k' == k) = false := by simpa using hk
+      simp only [hk', Bool.false_eq_true, ↓reduceIte, List.length_cons, List.map_cons]
+      have hmem : k ∈ xs.map (·.1) := by
+        simp only [List.map_cons, List.mem_cons] at h
+        rcases h with h | h
+        · exact absurd (by simpa using h.symm : (k' == k) = true) hk
+        · exact h
+      obtain ⟨h1, h2⟩ := ih hmem
+      exact ⟨by rw [h1], by rw [h2]⟩
+
+theorem dictOf_foldl_length (key : ρ → κ) :
+    ∀ (rows : List ρ) (acc : List (κ × ρ)),
+      (rows.foldl (fun d r => dictInsert d (key r) r) acc).length ≤ acc.length + rows.length ∧
+      ((rows.foldl (fun d r => dictInsert d (key r) r) acc).length = acc.length + rows.length →
+        (rows.map key).Nodup ∧ ∀ r ∈ rows, key r ∉ acc.map (·.1)) := by
+  intro rows
+  induction rows with
+  | nil => intro acc; simp
+  | cons r rs ih =>
+    intro acc
+    simp only [List.foldl_cons, List.length_cons, List.map_cons, List.nodup_cons, List.mem_cons,
+      forall_eq_or_imp]
+    by_cases hmem : key r ∈ acc.map (·.1)
+    · obtain ⟨hl, hk⟩ := dictInsert_present (v := r) hmem
+      obtain ⟨h1, _⟩ := ih (dictInsert acc (key r) r)
+      rw [hl] at h1
+      refine ⟨by omega, ?_⟩
+      intro heq
+      omega
+    · have hfresh : dictInsert acc (key r) r = acc ++ [(key r, r)] :=
+        dictInsert_fresh (fun kv hkv heq => hmem (heq ▸ List.mem_map_of_mem hkv))
+      obtain ⟨h1, h2⟩ := ih (dictInsert acc (key r) r)
+      rw [hfresh] at h1 h2
+      simp only [List.length_append, List.length_cons, List.length_nil] at h1 h2
+      rw [hfresh]
+      refine ⟨by omega, ?_⟩
+      intro heq
+      obtain ⟨hn, hdis⟩ := h2 (by omega)
+      refine ⟨⟨?_, hn⟩, hmem, ?_⟩
+      · intro hin
+        obtain ⟨r', hr', hkr⟩ := List.mem_map.1 hin
+        exact hdis r' hr' (by simp [hkr])
+      · intro r' hr' hin
+        exact hdis r' hr' (by simp only [List.map_append, List.mem_append]; exact Or.inl hin)
+
+/-- the comprehension has as many entries as rows only if the keys are distinct -/
+theorem dictOf_length_eq_imp_nodup (key : ρ → κ) (rows : List ρ)
+    (h : (dictOf key rows).length = rows.length) : (rows.map key).Nodup := by
+  have := (dictOf_foldl_length key rows []).2 (by simpa [dictOf] using h)
+  exact this.1
 end dict
 
 /-! ### mapM in Except -/
